@@ -153,6 +153,11 @@ func (fr *Frame) instr(st *State, in ssa.Instruction) bool {
 		c.assume(not(eq(ch, "nil_chan")))
 		fr.env[in] = ch
 	case *ssa.MakeClosure:
+		if cf, ok := in.Fn.(*ssa.Function); ok && strings.HasSuffix(cf.Name(), "$bound") && len(in.Bindings) == 1 {
+			// a bound method value x.M: the same function value for the same method and receiver
+			fr.env[in] = c.define(in.Name(), "Fn", c.boundFn(strings.TrimSuffix(FuncKey(cf), "$bound"), c.sortOf(in.Bindings[0].Type()), fr.val(in.Bindings[0])))
+			break
+		}
 		f := c.freshConst("closure", "Fn")
 		c.assume(not(eq(f, "nil_fn")))
 		fr.env[in] = f
